@@ -10,130 +10,11 @@
 //   sum3   S A B C a b c      -> some v | none                NaturalSum<S>(a, b, c)
 //   setmax1 S A init a        -> ret var                      SetToNaturalSumOrMax(var, a)
 //   setmax2 S A B init a b    -> ret var                      SetToNaturalSumOrMax(var, a, b)
-//   setmax3 S A B C init a b c-> ret var
 //   cast   R S s              -> v | EXC bad_optional_access  NaturalCast<R>(s)
-//   pct    a b                -> v                            Math::intPercent (SquidMath.cc; smoke only)
 // Types are named sc uc ss us si ui sl ul sll ull. Values are decimal and are
 // converted to the named type with static_cast from __int128 (generators only
 // produce in-range values; out-of-range ones wrap, the model does the same).
-#include "squid.h"
-#include "SquidMath.h"
-#include "hcommon.h"
-
-#include <array>
-#include <optional>
-#include <tuple>
-#include <utility>
-
-typedef __int128 W;
-
-using TL = std::tuple<signed char, unsigned char, short, unsigned short, int, unsigned int,
-      long, unsigned long, long long, unsigned long long>;
-static const char *const TypeNames[] = {"sc", "uc", "ss", "us", "si", "ui", "sl", "ul", "sll", "ull"};
-static constexpr size_t NT = std::tuple_size<TL>::value;
-template <size_t I> using Ty = typename std::tuple_element<I, TL>::type;
-
-static int typeIndex(const std::string &s)
-{
-    for (size_t i = 0; i < NT; ++i)
-        if (s == TypeNames[i])
-            return static_cast<int>(i);
-    throw std::runtime_error("bad-type " + s);
-}
-
-static W parseW(const std::string &s)
-{
-    size_t i = 0;
-    bool neg = false;
-    if (i < s.size() && s[i] == '-') { neg = true; ++i; }
-    if (i >= s.size()) throw std::runtime_error("bad-number");
-    unsigned __int128 v = 0;
-    for (; i < s.size(); ++i) {
-        if (s[i] < '0' || s[i] > '9') throw std::runtime_error("bad-number");
-        v = v * 10 + static_cast<unsigned>(s[i] - '0');
-    }
-    // two's complement negation in the unsigned domain: no signed overflow in the harness itself
-    return static_cast<W>(neg ? (~v + 1) : v);
-}
-
-template <typename T>
-static std::string show(const T v)
-{
-    if (std::is_signed<T>::value)
-        return std::to_string(static_cast<long long>(v));
-    return std::to_string(static_cast<unsigned long long>(v));
-}
-
-template <typename S>
-static std::string showOpt(const std::optional<S> &r)
-{
-    return r ? ("some " + show<S>(r.value())) : std::string("none");
-}
-
-/* one function per instantiation; all have the same signature so that they fit into tables */
-typedef std::string (*Fn)(const W *);
-
-template <typename A, typename B>
-static std::string fLess(const W *v) { return Less(static_cast<A>(v[0]), static_cast<B>(v[1])) ? "1" : "0"; }
-
-template <typename S, typename T>
-static std::string fInc(const W *v) { return showOpt<S>(IncreaseSum(static_cast<S>(v[0]), static_cast<T>(v[1]))); }
-
-template <typename S, typename A>
-static std::string fSum1(const W *v) { return showOpt<S>(NaturalSum<S>(static_cast<A>(v[0]))); }
-
-template <typename S, typename A, typename B>
-static std::string fSum2(const W *v) { return showOpt<S>(NaturalSum<S>(static_cast<A>(v[0]), static_cast<B>(v[1]))); }
-
-template <typename S, typename A, typename B, typename C>
-static std::string fSum3(const W *v)
-{
-    return showOpt<S>(NaturalSum<S>(static_cast<A>(v[0]), static_cast<B>(v[1]), static_cast<C>(v[2])));
-}
-
-template <typename S, typename A>
-static std::string fSet1(const W *v)
-{
-    S var = static_cast<S>(v[0]);
-    const S ret = SetToNaturalSumOrMax(var, static_cast<A>(v[1]));
-    return show<S>(ret) + " " + show<S>(var);
-}
-
-template <typename S, typename A, typename B>
-static std::string fSet2(const W *v)
-{
-    S var = static_cast<S>(v[0]);
-    const S ret = SetToNaturalSumOrMax(var, static_cast<A>(v[1]), static_cast<B>(v[2]));
-    return show<S>(ret) + " " + show<S>(var);
-}
-
-template <typename S, typename A, typename B, typename C>
-static std::string fSet3(const W *v)
-{
-    S var = static_cast<S>(v[0]);
-    const S ret = SetToNaturalSumOrMax(var, static_cast<A>(v[1]), static_cast<B>(v[2]), static_cast<C>(v[3]));
-    return show<S>(ret) + " " + show<S>(var);
-}
-
-template <typename R, typename S>
-static std::string fCast(const W *v)
-{
-    try {
-        return show<R>(NaturalCast<R>(static_cast<S>(v[0])));
-    } catch (const std::bad_optional_access &) {
-        return "EXC bad_optional_access";
-    }
-}
-
-/* dispatch tables: entry I of a table over k type parameters is the instantiation for the
-   base-NT digits of I (most significant digit = first template parameter) */
-#define D2(I) Ty<(I) / NT>, Ty<(I) % NT>
-#define D3(I) Ty<(I) / (NT * NT)>, Ty<(I) / NT % NT>, Ty<(I) % NT>
-#define D4(I) Ty<(I) / (NT * NT * NT)>, Ty<(I) / (NT * NT) % NT>, Ty<(I) / NT % NT>, Ty<(I) % NT>
-#define TABLE(name, fn, DIG, COUNT) \
-    template <size_t... I> static constexpr std::array<Fn, sizeof...(I)> name##Make(std::index_sequence<I...>) \
-    { return {{ &fn<DIG(I)>... }}; } \
-    static const auto name = name##Make(std::make_index_sequence<(COUNT)>());
+#include "h_math_defs.h"
 
 TABLE(LessTable, fLess, D2, NT * NT)
 TABLE(IncTable, fInc, D2, NT * NT)
@@ -141,11 +22,11 @@ TABLE(Sum1Table, fSum1, D2, NT * NT)
 TABLE(Set1Table, fSet1, D2, NT * NT)
 TABLE(CastTable, fCast, D2, NT * NT)
 TABLE(Sum2Table, fSum2, D3, NT * NT * NT)
-TABLE(Set2Table, fSet2, D3, NT * NT * NT)
-#ifndef H_MATH_NO3
-TABLE(Sum3Table, fSum3, D4, NT * NT * NT * NT)
-TABLE(Set3Table, fSet3, D4, NT * NT * NT * NT)
-#endif
+typedef const Fn *(*PartFn)();
+static const PartFn Sum3Parts[NT] = {
+    &h_math_sum3_part0, &h_math_sum3_part1, &h_math_sum3_part2, &h_math_sum3_part3, &h_math_sum3_part4,
+    &h_math_sum3_part5, &h_math_sum3_part6, &h_math_sum3_part7, &h_math_sum3_part8, &h_math_sum3_part9
+};
 
 int main()
 {
@@ -163,26 +44,30 @@ int main()
             else if (op == "sum1") { nTypes = 2; nVals = 1; table = Sum1Table.data(); }
             else if (op == "sum2") { nTypes = 3; nVals = 2; table = Sum2Table.data(); }
             else if (op == "setmax1") { nTypes = 2; nVals = 2; table = Set1Table.data(); }
-            else if (op == "setmax2") { nTypes = 3; nVals = 3; table = Set2Table.data(); }
+            else if (op == "setmax2") { nTypes = 3; nVals = 3; table = h_math_set2_table(); }
             else if (op == "cast") { nTypes = 2; nVals = 1; table = CastTable.data(); }
-#ifndef H_MATH_NO3
-            else if (op == "sum3") { nTypes = 4; nVals = 3; table = Sum3Table.data(); }
-            else if (op == "setmax3") { nTypes = 4; nVals = 4; table = Set3Table.data(); }
-#endif
-            else if (op == "pct") {
-                if (a.size() != 3) throw std::runtime_error("bad-args");
-                o << Math::intPercent(static_cast<int>(parseW(a[1])), static_cast<int>(parseW(a[2])));
+            else if (op == "sum3") {
+                // the table for result type S lives in part unit S; index it by the argument types
+                if (a.size() != 8) throw std::runtime_error("bad-args");
+                nTypes = 4; nVals = 3; table = Sum3Parts[typeIndex(a[1])]();
             }
             else o << "ERR unknown-entry " << op;
             if (table) {
                 if (a.size() != 1 + nTypes + nVals) throw std::runtime_error("bad-args");
                 size_t idx = 0;
-                for (size_t i = 0; i < nTypes; ++i)
+                for (size_t i = (op == "sum3" ? 1 : 0); i < nTypes; ++i)
                     idx = idx * NT + static_cast<size_t>(typeIndex(a[1 + i]));
                 W vals[4] = {0, 0, 0, 0};
                 for (size_t i = 0; i < nVals; ++i)
                     vals[i] = parseW(a[1 + nTypes + i]);
-                o << table[idx](vals);
+                W out[2] = {0, 0};
+                try {
+                    table[idx](vals, out);
+                    if (op == "less" || op == "cast") o << showW(out[0]);
+                    else if (op[1] == 'e') o << showW(out[0]) << " " << showW(out[1]); // setmaxN
+                    else if (out[0]) o << "some " << showW(out[1]);
+                    else o << "none";
+                } catch (const std::bad_optional_access &) { o << "EXC bad_optional_access"; }
             }
         } catch (const std::exception &e) { o.str(""); o << "EXC " << e.what(); }
         std::cout << o.str() << "\n" << std::flush;
